@@ -704,6 +704,20 @@ impl<'a> Sk<'a> {
         }
     }
 
+    /// the guard of a match arm (` if <cond>`): kept like any other condition - an erased guard is `nd()`
+    fn guard_text(&mut self, arm: &syn::Arm) -> R<String> {
+        match &arm.guard {
+            None => Ok(String::new()),
+            Some((_, g)) => {
+                let mut o = Vec::new();
+                let c = self.cond(g, &mut o)?;
+                if !o.is_empty() {
+                    return Err(format!("construct outside rule list (skeleton): match guard with effects (line {})", self.line(g.span())));
+                }
+                Ok(format!(" if {c}"))
+            }
+        }
+    }
     fn retval(&mut self, e: &syn::Expr, out: &mut Vec<String>) -> R<String> {
         use syn::Expr;
         match e {
@@ -829,7 +843,8 @@ impl<'a> Sk<'a> {
                     // a kept scrutinee: a real `match` (exhaustiveness is checked by rustc)
                     out.push(format!("match {sv} {{ {}", self.srcnote(m.expr.span())));
                     for arm in m.arms.iter() {
-                        out.push(format!("    {} => {{ {}", self.pat_text(&arm.pat), self.srcnote(arm.pat.span())));
+                        let g = self.guard_text(arm)?;
+                        out.push(format!("    {}{g} => {{ {}", self.pat_text(&arm.pat), self.srcnote(arm.pat.span())));
                         let mut inner = Vec::new();
                         match &*arm.body {
                             Expr::Block(b) => self.block_tail(&b.block, &mut inner)?,
@@ -1400,7 +1415,8 @@ impl<'a> Sk<'a> {
                         Expr::Block(b) => self.body(&b.block, &mut inner)?,
                         other => self.stmt_expr_or_effects(other, &mut inner)?,
                     }
-                    arms.push((self.pat_text(&arm.pat), inner));
+                    let g = if scrut.is_some() { self.guard_text(arm)? } else { String::new() };
+                    arms.push((format!("{}{g}", self.pat_text(&arm.pat)), inner));
                 }
                 if arms.iter().all(|(_, b)| b.is_empty()) {
                     self.dropped += 1;
@@ -1735,6 +1751,28 @@ pub fn skeleton_fn(ctx: &mut Ctx, blk: &Block) -> Result<(String, Value), String
                 let tail = &rest[i + 1..];
                 let end = tail.find(|c: char| !(c.is_ascii_alphanumeric() || c == '_' || c == '.' || c == '#')).unwrap_or(tail.len());
                 let tok = &tail[..end];
+                if tok == "ret" || (tok.starts_with("ret.") && !tok[4..].starts_with(|c: char| c.is_ascii_digit())) {
+                    let end = 3; // only `ret` is consumed: `@ret.field` keeps `.field`
+                    // `@ret`: the identifier the function returns in tail position (`x` / `Ok(x)` / `Some(x)`)
+                    let id = match f.block.stmts.last() {
+                        Some(syn::Stmt::Expr(e, None)) => {
+                            let mut e = e;
+                            if let syn::Expr::Call(c) = e {
+                                if c.args.len() == 1 && matches!(&*c.func, syn::Expr::Path(p) if p.path.is_ident("Ok") || p.path.is_ident("Some")) {
+                                    e = &c.args[0];
+                                }
+                            }
+                            Sk::root_ident(e)
+                        }
+                        _ => None,
+                    };
+                    match id {
+                        Some(id) => out.push_str(&id),
+                        None => return Err(format!("lost anchor: `@ret` - {path} does not end in an identifier")),
+                    }
+                    rest = &tail[end..];
+                    continue;
+                }
                 match tok.split_once('.') {
                     Some((callee, k)) if !callee.is_empty() && k.chars().all(|c| c.is_ascii_digit()) && !k.is_empty() => {
                         let k: usize = k.parse().unwrap();
@@ -1755,6 +1793,96 @@ pub fn skeleton_fn(ctx: &mut Ctx, blk: &Block) -> Result<(String, Value), String
             Ok(out)
         };
         let mut b = blk.clone();
+        // S15: a `$name` metavariable in a `then` / `else` pattern is bound by the first condition of the function that
+        // matches the pattern (mirrored comparisons included) and replaced in every directive and contract line - the
+        // hooks follow the test, whatever the local it compares is called
+        {
+            struct Conds(Vec<proc_macro2::TokenStream>);
+            impl Conds {
+                fn add(&mut self, e: &syn::Expr) {
+                    match e {
+                        syn::Expr::Paren(p) => self.add(&p.expr),
+                        syn::Expr::Binary(b) if matches!(b.op, syn::BinOp::And(_) | syn::BinOp::Or(_)) => {
+                            self.add(&b.left);
+                            self.add(&b.right);
+                        }
+                        syn::Expr::Let(_) => {}
+                        other => {
+                            self.0.push(other.to_token_stream());
+                            if let syn::Expr::Binary(b) = other {
+                                let (l, r) = (&b.left, &b.right);
+                                match b.op {
+                                    syn::BinOp::Gt(_) => self.0.push(quote::quote!(#r < #l)),
+                                    syn::BinOp::Lt(_) => self.0.push(quote::quote!(#r > #l)),
+                                    syn::BinOp::Ge(_) => self.0.push(quote::quote!(#r <= #l)),
+                                    syn::BinOp::Le(_) => self.0.push(quote::quote!(#r >= #l)),
+                                    _ => {}
+                                }
+                            }
+                        }
+                    }
+                }
+            }
+            impl<'ast> syn::visit::Visit<'ast> for Conds {
+                fn visit_expr_if(&mut self, i: &'ast syn::ExprIf) {
+                    self.add(&i.cond);
+                    syn::visit::visit_expr_if(self, i);
+                }
+            }
+            let mut conds = Conds(vec![]);
+            syn::visit::Visit::visit_block(&mut conds, f.block);
+            let mut bound: Vec<(String, String)> = Vec::new();
+            for sub in &b.subs {
+                if sub.kind != "on" && sub.kind != "on?" {
+                    continue;
+                }
+                let Ok((head, _)) = crate::extract::split_arrow(&sub.arg) else { continue };
+                let Some((kind, what)) = head.split_once(char::is_whitespace) else { continue };
+                if kind != "then" && kind != "else" {
+                    continue;
+                }
+                let Ok(pat) = pattern::parse_pattern(what.trim()) else { continue };
+                fn has_var(p: &[pattern::Pat]) -> bool {
+                    p.iter().any(|x| match x {
+                        pattern::Pat::Var(_) => true,
+                        pattern::Pat::Group(_, inner) => has_var(inner),
+                        _ => false,
+                    })
+                }
+                if !has_var(&pat) {
+                    continue;
+                }
+                for c in &conds.0 {
+                    let mut bs = pattern::Bindings::new();
+                    if pattern::matches(&pat, c.clone(), &mut bs) {
+                        for (k, (_, text)) in bs {
+                            if !bound.iter().any(|(n, _)| *n == k) {
+                                bound.push((k, text));
+                            }
+                        }
+                        break;
+                    }
+                }
+            }
+            // longest names first so that `$res` does not clobber `$res_norm`
+            bound.sort_by(|a, b| b.0.len().cmp(&a.0.len()));
+            let subst = |t: &str| -> String {
+                let mut t = t.to_string();
+                for (k, v) in &bound {
+                    t = t.replace(&format!("${k}"), v);
+                }
+                t
+            };
+            for sub in b.subs.iter_mut() {
+                sub.arg = subst(&sub.arg);
+                for l in sub.lines.iter_mut() {
+                    *l = subst(l);
+                }
+            }
+            for l in b.spec.iter_mut() {
+                *l = subst(l);
+            }
+        }
         for s in b.subs.iter_mut() {
             s.arg = resolve(&s.arg)?;
             for l in s.lines.iter_mut() {
